@@ -485,7 +485,8 @@ def jobs(tier: str):
         for n in range(0, nmax + 1):
             if n == nmax and op not in core:
                 continue  # the longest pre-state only for the five primitive mutators everything else is built on
-            out.append(dict(name=f"{op}/pre{n}", op=op, n=n, weight=6 ** n))
+            # sibling / aliasing views only up to 3 pairs: with 4 they alone push the primitive mutators past their time budget
+            out.append(dict(name=f"{op}/pre{n}", op=op, n=n, weight=6 ** n, siblings=(n <= 3)))
     out.append(dict(name="twin/assign", op="assign", n=1, twin=True))
     return out
 
